@@ -142,6 +142,13 @@ fn cells() -> Vec<Cell> {
         v.push(Cell { name: format!("recv/{}<-UnknownFrame", rname), m1: req.clone(), reply: RefMsg::Unknown { addr: 3, ty: 0x42, data: vec![0x13] }, send_paced: false, recv_paced: false });
         v.push(Cell { name: format!("recv/{}<-DataFrame", rname), m1: req.clone(), reply: RefMsg::Data { offset: 0, data: vec![0x13; 16] }, send_paced: false, recv_paced: false });
     }
+    // replies that merely LOOK like an in-progress report (state byte 0x13 / 0x11 in a frame that is not a state report:
+    // more than one data byte, another message type, no data at all) are not in-progress reports
+    for (i, (ty, data)) in [(4u8, vec![0x13u8, 0x00]), (4, vec![0x11, 0x00]), (4, vec![0x13, 0x13, 0x13]), (4, vec![]), (5, vec![0x13]), (2, vec![0x11]), (0x14, vec![0x13]), (4, vec![0x00, 0x13])].into_iter().enumerate() {
+        for (rname, req) in requests.iter().take(2) {
+            v.push(Cell { name: format!("recv/{}<-LookalikeFrame#{}({:02X}:{})", rname, i, ty, crate::util::hex(&data)), m1: req.clone(), reply: RefMsg::Unknown { addr: 3, ty, data: data.clone() }, send_paced: false, recv_paced: false });
+        }
+    }
     v
 }
 
